@@ -77,6 +77,23 @@ class Chars:
                                   f"{self.res[c]} (expected {JT_NUM[k]})",
                                   {"stage": "search", "stream": "known-chars", "request": f"arabic jt {c}",
                                    "expected": JT_NUM[k], "observed": self.res[c]})
+        # Unicode's derivation rule for Joining_Type (ArabicShaping.txt): every nonspacing and every enclosing mark is
+        # Transparent.  General categories from CPython's unicodedata (an older Unicode: assigned categories are stable).
+        import unicodedata
+        marks = [c for c in range(0x110000) if unicodedata.category(chr(c)) in ("Mn", "Me")]
+        self.learn(shim, marks + [0x0300, 0x20DD])
+        # … and only where the crate's own general category (a newer Unicode) still says Mn / Me (U+1171E became Mc)
+        mark_gcs = {self.gc[0x0300], self.gc[0x20DD]}
+        marks = [c for c in marks if self.gc[c] in mark_gcs]
+        wrong = [c for c in marks if self.res[c] != JT_NUM["T"]]
+        if wrong:
+            c = wrong[0]
+            ctx.violation(f"U+{c:04X} is a {unicodedata.category(chr(c))} mark, hence Joining_Type Transparent, but the crate resolves "
+                          f"it to joining type {self.res[c]} ({len(wrong)} marks, e.g. {[hex(x) for x in wrong[:8]]})",
+                          {"stage": "search", "stream": "known-chars", "request": f"arabic jt {c}",
+                           "expected": JT_NUM["T"], "observed": self.res[c], "count": len(wrong)})
+        ctx.note_search("marks-transparent", len(marks), len(marks),
+                        rule="every code point of general category Mn or Me (per CPython unicodedata AND per the crate's own general category) resolves to joining type T")
         n = sum(len(v) for v in KNOWN.values())
         ctx.note_search("known-chars", n, n, rule=f"joining class of {N_KNOWN} well-known characters (all of U+0620..064A and "
                         "U+0710..072F; samples of N'Ko, Mandaic, Mongolian, Phags-pa, Manichaean, Hanifi Rohingya, controls, "
